@@ -84,7 +84,18 @@ RPoint == [game |-> RGames[Digit(idx, 8 * 8 * 6 * 4 * 3 * 2, 4) + 1],
            verdict |-> {"ok"} \cup (IF Digit(idx, 8 * 8 * 6 * 4 * 3, 2) = 1 THEN {"ThreadSpawnError"} ELSE {}),
            infinite |-> FALSE]
 
-TotalOf == IF Family = "range" THEN RTotal ELSE Total
+\* ------------------------------------------------------------------ the contention family
+\* External sampling with several threads on the game in which one opponent infoset is shared by every
+\* parallel task: the mutex of that infoset is contended, so "never panics, never hangs" here means that
+\* the lock is a blocking one (ParWorkers.tla, TryLock)
+CTotal == 6 * 3 * 2
+CPoint == [game |-> 15, method |-> "External", preset |-> PresetSeq[Digit(idx, 1, 6) + 1],
+           par |-> [a |-> PInf, b |-> PInf, g |-> Q(Zero), w |-> Q(Zero)],
+           budget |-> <<40, 3>>[Digit(idx, 18, 2) + 1], thr |-> "zero",
+           threads |-> <<"2", "3", "16">>[Digit(idx, 6, 3) + 1],
+           verdict |-> {"ok", "ThreadSpawnError"}, infinite |-> FALSE]
+
+TotalOf == IF Family = "range" THEN RTotal ELSE IF Family = "contention" THEN CTotal ELSE Total
 
 \* a deterministic slice: every Of-th point starting at Slice
 Init == /\ idx \in {Slice + k * Of : k \in 0..((TotalOf - 1 - Slice) \div Of)}
@@ -94,6 +105,7 @@ Next == /\ ~done
         /\ done' = TRUE
         /\ UNCHANGED idx
         /\ IF Family = "range" THEN PrintT(<<"OUT", idx, ToJson(RPoint)>>)
+           ELSE IF Family = "contention" THEN PrintT(<<"OUT", idx, ToJson(CPoint)>>)
            ELSE PrintT(<<"OUT", idx, ToJson([game |-> Game, method |-> Method, preset |-> Preset, par |-> Par,
                                         budget |-> Budget, thr |-> Thr, threads |-> Th,
                                         verdict |-> Verdict(Th), infinite |-> Budget = 0])>>)
